@@ -1,0 +1,327 @@
+//go:build verif
+
+package types
+
+// Contracts for the deductive checker in /verif (comment-only; compiled only with -tags verif).
+// Lib specs: /verif/specs/lib/70_ethtx.spec (tx_* accessors of *ethtypes.Transaction, be_bytes/be_int, addr_hex/hex_addr).
+
+/*@
+// numeric value of an optional big integer / sdk Int (nil counts as 0: geth's NewTx copies a nil field as 0)
+specfunc bigval(p *math/big.Int) int = ite(p == nil, 0, *p)
+specfunc sigval(b Bytes) int = ite(len(b) == 0, 0, be_int(b))
+
+func rawSignatureValues
+    ensures v: (len(vBz) == 0 ==> v == nil) && (len(vBz) > 0 ==> v != nil && fresh(v) && *v == be_int(vBz))
+    ensures r: (len(rBz) == 0 ==> r == nil) && (len(rBz) > 0 ==> r != nil && fresh(r) && *r == be_int(rBz))
+    ensures s: (len(sBz) == 0 ==> s == nil) && (len(sBz) > 0 ==> s != nil && fresh(s) && *s == be_int(sBz))
+
+func (*LegacyTx).GetRawSignatureValues
+    requires nonnil: tx != nil
+    ensures v: (len(tx.V) == 0 ==> v == nil) && (len(tx.V) > 0 ==> v != nil && fresh(v) && *v == be_int(tx.V))
+    ensures r: (len(tx.R) == 0 ==> r == nil) && (len(tx.R) > 0 ==> r != nil && fresh(r) && *r == be_int(tx.R))
+    ensures s: (len(tx.S) == 0 ==> s == nil) && (len(tx.S) > 0 ==> s != nil && fresh(s) && *s == be_int(tx.S))
+
+func (*LegacyTx).SetSignatureValues
+    params tx, chainID, v, r, s
+    requires nonnil: tx != nil
+    modifies *tx
+    ensures v: tx.V == ite(v != nil, be_bytes(iabs(old(*v))), old(tx.V))
+    ensures r: tx.R == ite(r != nil, be_bytes(iabs(old(*r))), old(tx.R))
+    ensures s: tx.S == ite(s != nil, be_bytes(iabs(old(*s))), old(tx.S))
+    ensures frame: tx.Nonce == old(tx.Nonce) && tx.GasPrice == old(tx.GasPrice) && tx.GasLimit == old(tx.GasLimit) && tx.To == old(tx.To)
+            && tx.Amount == old(tx.Amount) && tx.Data == old(tx.Data)
+
+// chain id encoded in a legacy signature value v (EIP-155): none for v < 27, 29..34; 0 for 27/28; (v-35)/2 from 35 on.
+// Both code paths (uint64 arithmetic, big.Int arithmetic) compute the same function of the value.
+func DeriveChainID
+    ensures none: (v == nil || *v <= 0 || (*v < 35 && *v != 27 && *v != 28)) ==> result == nil
+    ensures unprotected: v != nil && (*v == 27 || *v == 28) ==> result != nil && *result == 0
+    ensures eip155: v != nil && *v >= 35 ==> result != nil && *result == (*v - 35) / 2
+    ensures fresh_result: result != nil ==> fresh(result)
+    ensures input_kept: v != nil ==> *v == old(*v)
+
+func fee
+    requires nonnil: gasPrice != nil
+    ensures product: result != nil && fresh(result) && *result == *gasPrice * gas
+func cost
+    requires nonnil: fee != nil
+    ensures sum: result != nil && *result == old(*fee) + ite(value == nil, 0, old(*value))
+    ensures fresh_or_fee: fresh(result) || (value == nil && result == fee)
+
+// ------------------------------------------------------------------ C18: Ethereum tx -> stored tx data
+// optional sdk Int field p mirrors optional big integer q / optional big integer b mirrors optional sdk Int field p
+specfunc SameOpt(p *cosmossdk.io/math.Int, q *math/big.Int) bool = (q == nil ==> p == nil) && (q != nil ==> p != nil && *p == *q)
+specfunc SameOptB(b *math/big.Int, p *cosmossdk.io/math.Int) bool = (p == nil ==> b == nil) && (p != nil ==> b != nil && *b == *p)
+
+func (*AccessListTx).GetRawSignatureValues
+    requires nonnil: tx != nil
+    ensures v: (len(tx.V) == 0 ==> v == nil) && (len(tx.V) > 0 ==> v != nil && fresh(v) && *v == be_int(tx.V))
+    ensures r: (len(tx.R) == 0 ==> r == nil) && (len(tx.R) > 0 ==> r != nil && fresh(r) && *r == be_int(tx.R))
+    ensures s: (len(tx.S) == 0 ==> s == nil) && (len(tx.S) > 0 ==> s != nil && fresh(s) && *s == be_int(tx.S))
+
+func (*DynamicFeeTx).GetRawSignatureValues
+    requires nonnil: tx != nil
+    ensures v: (len(tx.V) == 0 ==> v == nil) && (len(tx.V) > 0 ==> v != nil && fresh(v) && *v == be_int(tx.V))
+    ensures r: (len(tx.R) == 0 ==> r == nil) && (len(tx.R) > 0 ==> r != nil && fresh(r) && *r == be_int(tx.R))
+    ensures s: (len(tx.S) == 0 ==> s == nil) && (len(tx.S) > 0 ==> s != nil && fresh(s) && *s == be_int(tx.S))
+
+func (*AccessListTx).SetSignatureValues
+    requires nonnil: tx != nil
+    modifies *tx
+    ensures v: tx.V == ite(v != nil, be_bytes(iabs(old(*v))), old(tx.V))
+    ensures r: tx.R == ite(r != nil, be_bytes(iabs(old(*r))), old(tx.R))
+    ensures s: tx.S == ite(s != nil, be_bytes(iabs(old(*s))), old(tx.S))
+    ensures chainid: (chainID == nil ==> tx.ChainID == old(tx.ChainID)) && (chainID != nil ==> tx.ChainID != nil && fresh(tx.ChainID) && *tx.ChainID == old(*chainID))
+    ensures frame: tx.Nonce == old(tx.Nonce) && tx.GasPrice == old(tx.GasPrice) && tx.GasLimit == old(tx.GasLimit) && tx.To == old(tx.To)
+            && tx.Amount == old(tx.Amount) && tx.Data == old(tx.Data) && tx.Accesses == old(tx.Accesses)
+
+func (*DynamicFeeTx).SetSignatureValues
+    requires nonnil: tx != nil
+    modifies *tx
+    ensures v: tx.V == ite(v != nil, be_bytes(iabs(old(*v))), old(tx.V))
+    ensures r: tx.R == ite(r != nil, be_bytes(iabs(old(*r))), old(tx.R))
+    ensures s: tx.S == ite(s != nil, be_bytes(iabs(old(*s))), old(tx.S))
+    ensures chainid: (chainID == nil ==> tx.ChainID == old(tx.ChainID)) && (chainID != nil ==> tx.ChainID != nil && fresh(tx.ChainID) && *tx.ChainID == old(*chainID))
+    ensures frame: tx.Nonce == old(tx.Nonce) && tx.GasTipCap == old(tx.GasTipCap) && tx.GasFeeCap == old(tx.GasFeeCap) && tx.GasLimit == old(tx.GasLimit) && tx.To == old(tx.To)
+            && tx.Amount == old(tx.Amount) && tx.Data == old(tx.Data) && tx.Accesses == old(tx.Accesses)
+
+
+// the stored tx data p mirrors the Ethereum transaction tx field by field (access list: see NewAccessList)
+specfunc LegacyMirrors(p *github.com/haqq-network/haqq/x/evm/types.LegacyTx, tx *EthTx) bool = p != nil
+        && p.Nonce == tx_nonce(tx)
+        && p.GasLimit == tx_gas(tx)
+        && p.Data == tx_data(tx)
+        && p.To == ite(tx_to(tx) == nil, "", addr_hex(*tx_to(tx)))
+        && SameOpt(p.Amount, tx_value(tx))
+        && SameOpt(p.GasPrice, tx_gasprice(tx))
+        && (tx_v(tx) == nil ==> len(p.V) == 0) && (tx_v(tx) != nil ==> p.V == be_bytes(iabs(*tx_v(tx))))
+        && (tx_r(tx) == nil ==> len(p.R) == 0) && (tx_r(tx) != nil ==> p.R == be_bytes(iabs(*tx_r(tx))))
+        && (tx_s(tx) == nil ==> len(p.S) == 0) && (tx_s(tx) != nil ==> p.S == be_bytes(iabs(*tx_s(tx))))
+specfunc AccessListMirrors(p *github.com/haqq-network/haqq/x/evm/types.AccessListTx, tx *EthTx) bool = p != nil
+        && p.Nonce == tx_nonce(tx)
+        && p.GasLimit == tx_gas(tx)
+        && p.Data == tx_data(tx)
+        && p.To == ite(tx_to(tx) == nil, "", addr_hex(*tx_to(tx)))
+        && SameOpt(p.Amount, tx_value(tx))
+        && SameOpt(p.GasPrice, tx_gasprice(tx))
+        && SameOpt(p.ChainID, tx_chainid(tx))
+        && (tx_v(tx) == nil ==> len(p.V) == 0) && (tx_v(tx) != nil ==> p.V == be_bytes(iabs(*tx_v(tx))))
+        && (tx_r(tx) == nil ==> len(p.R) == 0) && (tx_r(tx) != nil ==> p.R == be_bytes(iabs(*tx_r(tx))))
+        && (tx_s(tx) == nil ==> len(p.S) == 0) && (tx_s(tx) != nil ==> p.S == be_bytes(iabs(*tx_s(tx))))
+specfunc DynamicFeeMirrors(p *github.com/haqq-network/haqq/x/evm/types.DynamicFeeTx, tx *EthTx) bool = p != nil
+        && p.Nonce == tx_nonce(tx)
+        && p.GasLimit == tx_gas(tx)
+        && p.Data == tx_data(tx)
+        && p.To == ite(tx_to(tx) == nil, "", addr_hex(*tx_to(tx)))
+        && SameOpt(p.Amount, tx_value(tx))
+        && SameOpt(p.GasFeeCap, tx_feecap(tx))
+        && SameOpt(p.GasTipCap, tx_tipcap(tx))
+        && SameOpt(p.ChainID, tx_chainid(tx))
+        && (tx_v(tx) == nil ==> len(p.V) == 0) && (tx_v(tx) != nil ==> p.V == be_bytes(iabs(*tx_v(tx))))
+        && (tx_r(tx) == nil ==> len(p.R) == 0) && (tx_r(tx) != nil ==> p.R == be_bytes(iabs(*tx_r(tx))))
+        && (tx_s(tx) == nil ==> len(p.S) == 0) && (tx_s(tx) != nil ==> p.S == be_bytes(iabs(*tx_s(tx))))
+
+// every stored field of the new LegacyTx equals the corresponding accessor of the Ethereum transaction (nil <-> nil);
+// the only refusal is a value of more than 256 bits
+func NewLegacyTx
+    requires nonnil: tx != nil
+    ensures mirrors: result.1 == nil ==> LegacyMirrors(result.0, tx)
+    ensures err: result.1 != nil ==> result.0 == nil
+    ensures ok: (result.1 == nil) == ((tx_value(tx) == nil || fits256(*tx_value(tx))) && (tx_gasprice(tx) == nil || fits256(*tx_gasprice(tx))))
+    ensures fresh_result: result.1 == nil ==> result.0 != nil && fresh(result.0)
+    ensures scalars: result.1 == nil ==> result.0.Nonce == tx_nonce(tx) && result.0.GasLimit == tx_gas(tx) && result.0.Data == tx_data(tx)
+    ensures to: result.1 == nil ==> result.0.To == ite(tx_to(tx) == nil, "", addr_hex(*tx_to(tx)))
+    ensures amount: result.1 == nil ==> SameOpt(result.0.Amount, tx_value(tx))
+    ensures gasprice: result.1 == nil ==> SameOpt(result.0.GasPrice, tx_gasprice(tx))
+    ensures sig_v: result.1 == nil ==> (tx_v(tx) == nil ==> len(result.0.V) == 0) && (tx_v(tx) != nil ==> result.0.V == be_bytes(iabs(*tx_v(tx))))
+    ensures sig_r: result.1 == nil ==> (tx_r(tx) == nil ==> len(result.0.R) == 0) && (tx_r(tx) != nil ==> result.0.R == be_bytes(iabs(*tx_r(tx))))
+    ensures sig_s: result.1 == nil ==> (tx_s(tx) == nil ==> len(result.0.S) == 0) && (tx_s(tx) != nil ==> result.0.S == be_bytes(iabs(*tx_s(tx))))
+
+// every stored field of the new AccessListTx equals the corresponding accessor of the Ethereum transaction (nil <-> nil);
+// the only refusal is a value of more than 256 bits
+func newAccessListTx
+    requires nonnil: tx != nil
+    ensures accesses: result.1 == nil && len(tx_al(tx)) > 0 ==> len(result.0.Accesses) == len(tx_al(tx))
+            && (forall k int :: 0 <= k && k < len(tx_al(tx)) ==> TupleMirrors(result.0.Accesses[k], tx_al(tx)[k]))
+    ensures mirrors: result.1 == nil ==> AccessListMirrors(result.0, tx)
+    ensures err: result.1 != nil ==> result.0 == nil
+    ensures ok: (result.1 == nil) == ((tx_value(tx) == nil || fits256(*tx_value(tx))) && (tx_gasprice(tx) == nil || fits256(*tx_gasprice(tx))))
+    ensures fresh_result: result.1 == nil ==> result.0 != nil && fresh(result.0)
+    ensures scalars: result.1 == nil ==> result.0.Nonce == tx_nonce(tx) && result.0.GasLimit == tx_gas(tx) && result.0.Data == tx_data(tx)
+    ensures to: result.1 == nil ==> result.0.To == ite(tx_to(tx) == nil, "", addr_hex(*tx_to(tx)))
+    ensures amount: result.1 == nil ==> SameOpt(result.0.Amount, tx_value(tx))
+    ensures gasprice: result.1 == nil ==> SameOpt(result.0.GasPrice, tx_gasprice(tx))
+    ensures chainid: result.1 == nil ==> SameOpt(result.0.ChainID, tx_chainid(tx))
+    ensures sig_v: result.1 == nil ==> (tx_v(tx) == nil ==> len(result.0.V) == 0) && (tx_v(tx) != nil ==> result.0.V == be_bytes(iabs(*tx_v(tx))))
+    ensures sig_r: result.1 == nil ==> (tx_r(tx) == nil ==> len(result.0.R) == 0) && (tx_r(tx) != nil ==> result.0.R == be_bytes(iabs(*tx_r(tx))))
+    ensures sig_s: result.1 == nil ==> (tx_s(tx) == nil ==> len(result.0.S) == 0) && (tx_s(tx) != nil ==> result.0.S == be_bytes(iabs(*tx_s(tx))))
+
+// every stored field of the new DynamicFeeTx equals the corresponding accessor of the Ethereum transaction (nil <-> nil);
+// the only refusal is a value of more than 256 bits
+func NewDynamicFeeTx
+    requires nonnil: tx != nil
+    ensures accesses: result.1 == nil && len(tx_al(tx)) > 0 ==> len(result.0.Accesses) == len(tx_al(tx))
+            && (forall k int :: 0 <= k && k < len(tx_al(tx)) ==> TupleMirrors(result.0.Accesses[k], tx_al(tx)[k]))
+    ensures mirrors: result.1 == nil ==> DynamicFeeMirrors(result.0, tx)
+    ensures err: result.1 != nil ==> result.0 == nil
+    ensures ok: (result.1 == nil) == ((tx_value(tx) == nil || fits256(*tx_value(tx))) && (tx_feecap(tx) == nil || fits256(*tx_feecap(tx))) && (tx_tipcap(tx) == nil || fits256(*tx_tipcap(tx))))
+    ensures fresh_result: result.1 == nil ==> result.0 != nil && fresh(result.0)
+    ensures scalars: result.1 == nil ==> result.0.Nonce == tx_nonce(tx) && result.0.GasLimit == tx_gas(tx) && result.0.Data == tx_data(tx)
+    ensures to: result.1 == nil ==> result.0.To == ite(tx_to(tx) == nil, "", addr_hex(*tx_to(tx)))
+    ensures amount: result.1 == nil ==> SameOpt(result.0.Amount, tx_value(tx))
+    ensures gasfeecap: result.1 == nil ==> SameOpt(result.0.GasFeeCap, tx_feecap(tx))
+    ensures gastipcap: result.1 == nil ==> SameOpt(result.0.GasTipCap, tx_tipcap(tx))
+    ensures chainid: result.1 == nil ==> SameOpt(result.0.ChainID, tx_chainid(tx))
+    ensures sig_v: result.1 == nil ==> (tx_v(tx) == nil ==> len(result.0.V) == 0) && (tx_v(tx) != nil ==> result.0.V == be_bytes(iabs(*tx_v(tx))))
+    ensures sig_r: result.1 == nil ==> (tx_r(tx) == nil ==> len(result.0.R) == 0) && (tx_r(tx) != nil ==> result.0.R == be_bytes(iabs(*tx_r(tx))))
+    ensures sig_s: result.1 == nil ==> (tx_s(tx) == nil ==> len(result.0.S) == 0) && (tx_s(tx) != nil ==> result.0.S == be_bytes(iabs(*tx_s(tx))))
+
+// ------------------------------------------------------------------ C18: stored tx data -> go-ethereum tx data
+func (*LegacyTx).GetNonce
+    inline
+func (*LegacyTx).GetGasPrice
+    inline
+func (*LegacyTx).GetGas
+    inline
+func (*LegacyTx).GetTo
+    inline
+func (*LegacyTx).GetValue
+    inline
+func (*LegacyTx).GetData
+    inline
+func (*AccessListTx).GetNonce
+    inline
+func (*AccessListTx).GetGasPrice
+    inline
+func (*AccessListTx).GetGas
+    inline
+func (*AccessListTx).GetTo
+    inline
+func (*AccessListTx).GetValue
+    inline
+func (*AccessListTx).GetData
+    inline
+func (*AccessListTx).GetChainID
+    inline
+func (*AccessListTx).GetAccessList
+    inline
+func (*DynamicFeeTx).GetNonce
+    inline
+func (*DynamicFeeTx).GetGasTipCap
+    inline
+func (*DynamicFeeTx).GetGasFeeCap
+    inline
+func (*DynamicFeeTx).GetGas
+    inline
+func (*DynamicFeeTx).GetTo
+    inline
+func (*DynamicFeeTx).GetValue
+    inline
+func (*DynamicFeeTx).GetData
+    inline
+func (*DynamicFeeTx).GetChainID
+    inline
+func (*DynamicFeeTx).GetAccessList
+    inline
+
+// every field of the produced go-ethereum tx data equals the stored field
+func (*LegacyTx).AsEthereumData
+    requires nonnil: tx != nil
+    let d = unbox(result, "*github.com/ethereum/go-ethereum/core/types.LegacyTx")
+    ensures kind: result != nil && typeof(result) == typetag("*github.com/ethereum/go-ethereum/core/types.LegacyTx") && d != nil && fresh(d)
+    ensures scalars: d.Nonce == tx.Nonce && d.Gas == tx.GasLimit && d.Data == tx.Data
+    ensures gasprice: SameOptB(d.GasPrice, tx.GasPrice)
+    ensures value: SameOptB(d.Value, tx.Amount)
+    ensures to: (tx.To == "" ==> d.To == nil) && (tx.To != "" ==> d.To != nil && *d.To == hex_addr(tx.To))
+    ensures sig_v: (len(tx.V) == 0 ==> d.V == nil) && (len(tx.V) > 0 ==> d.V != nil && *d.V == be_int(tx.V))
+    ensures sig_r: (len(tx.R) == 0 ==> d.R == nil) && (len(tx.R) > 0 ==> d.R != nil && *d.R == be_int(tx.R))
+    ensures sig_s: (len(tx.S) == 0 ==> d.S == nil) && (len(tx.S) > 0 ==> d.S != nil && *d.S == be_int(tx.S))
+    ensures unchanged: *tx == old(*tx)
+
+// every field of the produced go-ethereum tx data equals the stored field
+func (*AccessListTx).AsEthereumData
+    requires nonnil: tx != nil
+    ensures accesses: len(tx.Accesses) > 0 ==> len(d.AccessList) == len(tx.Accesses)
+            && (forall k int :: 0 <= k && k < len(tx.Accesses) ==> TupleParsed(d.AccessList[k], tx.Accesses[k]))
+    let d = unbox(result, "*github.com/ethereum/go-ethereum/core/types.AccessListTx")
+    ensures kind: result != nil && typeof(result) == typetag("*github.com/ethereum/go-ethereum/core/types.AccessListTx") && d != nil && fresh(d)
+    ensures scalars: d.Nonce == tx.Nonce && d.Gas == tx.GasLimit && d.Data == tx.Data
+    ensures gasprice: SameOptB(d.GasPrice, tx.GasPrice)
+    ensures chainid: SameOptB(d.ChainID, tx.ChainID)
+    ensures value: SameOptB(d.Value, tx.Amount)
+    ensures to: (tx.To == "" ==> d.To == nil) && (tx.To != "" ==> d.To != nil && *d.To == hex_addr(tx.To))
+    ensures sig_v: (len(tx.V) == 0 ==> d.V == nil) && (len(tx.V) > 0 ==> d.V != nil && *d.V == be_int(tx.V))
+    ensures sig_r: (len(tx.R) == 0 ==> d.R == nil) && (len(tx.R) > 0 ==> d.R != nil && *d.R == be_int(tx.R))
+    ensures sig_s: (len(tx.S) == 0 ==> d.S == nil) && (len(tx.S) > 0 ==> d.S != nil && *d.S == be_int(tx.S))
+    ensures unchanged: *tx == old(*tx)
+
+// every field of the produced go-ethereum tx data equals the stored field
+func (*DynamicFeeTx).AsEthereumData
+    requires nonnil: tx != nil
+    ensures accesses: len(tx.Accesses) > 0 ==> len(d.AccessList) == len(tx.Accesses)
+            && (forall k int :: 0 <= k && k < len(tx.Accesses) ==> TupleParsed(d.AccessList[k], tx.Accesses[k]))
+    let d = unbox(result, "*github.com/ethereum/go-ethereum/core/types.DynamicFeeTx")
+    ensures kind: result != nil && typeof(result) == typetag("*github.com/ethereum/go-ethereum/core/types.DynamicFeeTx") && d != nil && fresh(d)
+    ensures scalars: d.Nonce == tx.Nonce && d.Gas == tx.GasLimit && d.Data == tx.Data
+    ensures gastipcap: SameOptB(d.GasTipCap, tx.GasTipCap)
+    ensures gasfeecap: SameOptB(d.GasFeeCap, tx.GasFeeCap)
+    ensures chainid: SameOptB(d.ChainID, tx.ChainID)
+    ensures value: SameOptB(d.Value, tx.Amount)
+    ensures to: (tx.To == "" ==> d.To == nil) && (tx.To != "" ==> d.To != nil && *d.To == hex_addr(tx.To))
+    ensures sig_v: (len(tx.V) == 0 ==> d.V == nil) && (len(tx.V) > 0 ==> d.V != nil && *d.V == be_int(tx.V))
+    ensures sig_r: (len(tx.R) == 0 ==> d.R == nil) && (len(tx.R) > 0 ==> d.R != nil && *d.R == be_int(tx.R))
+    ensures sig_s: (len(tx.S) == 0 ==> d.S == nil) && (len(tx.S) > 0 ==> d.S != nil && *d.S == be_int(tx.S))
+    ensures unchanged: *tx == old(*tx)
+
+// ------------------------------------------------------------------ C18: dispatch on the transaction type and the message wrapper
+// the tx data has the stored type matching the Ethereum tx type (2 dynamic fee, 1 access list, anything else legacy) and
+// mirrors the transaction field by field
+func NewTxDataFromTx
+    requires nonnil: tx != nil
+    let ty = tx_type(tx)
+    ensures err: result.1 != nil ==> result.0 == nil
+    ensures dynamic: result.1 == nil && ty == 2 ==> result.0 != nil && typeof(result.0) == typetag("*github.com/haqq-network/haqq/x/evm/types.DynamicFeeTx")
+            && DynamicFeeMirrors(unbox(result.0, "*github.com/haqq-network/haqq/x/evm/types.DynamicFeeTx"), tx) && fresh(unbox(result.0, "*github.com/haqq-network/haqq/x/evm/types.DynamicFeeTx"))
+    ensures accesslist: result.1 == nil && ty == 1 ==> result.0 != nil && typeof(result.0) == typetag("*github.com/haqq-network/haqq/x/evm/types.AccessListTx")
+            && AccessListMirrors(unbox(result.0, "*github.com/haqq-network/haqq/x/evm/types.AccessListTx"), tx) && fresh(unbox(result.0, "*github.com/haqq-network/haqq/x/evm/types.AccessListTx"))
+    ensures legacy: result.1 == nil && ty != 1 && ty != 2 ==> result.0 != nil && typeof(result.0) == typetag("*github.com/haqq-network/haqq/x/evm/types.LegacyTx")
+            && LegacyMirrors(unbox(result.0, "*github.com/haqq-network/haqq/x/evm/types.LegacyTx"), tx) && fresh(unbox(result.0, "*github.com/haqq-network/haqq/x/evm/types.LegacyTx"))
+
+// codec leaf: packs the tx data into a protobuf Any (no effect on tracked state)
+func PackTxData
+    trusted
+
+// the hash recorded in the message is the hash of the Ethereum transaction; on failure the message is untouched
+func (*MsgEthereumTx).FromEthereumTx
+    requires nonnil: msg != nil && tx != nil
+    modifies *msg
+    ensures hash: result == nil ==> msg.Hash == hash_hex(tx_hash(tx))
+    ensures failed: result != nil ==> *msg == old(*msg)
+    ensures frame: msg.From == old(msg.From) && msg.Size_ == old(msg.Size_)
+
+// ------------------------------------------------------------------ C18: access lists
+// the stored tuple t mirrors the go-ethereum tuple e: hex forms of the address and of every storage key, in order
+specfunc TupleMirrors(t github.com/haqq-network/haqq/x/evm/types.AccessTuple, e github.com/ethereum/go-ethereum/core/types.AccessTuple) bool =
+        t.Address == addr_hex(e.Address) && len(t.StorageKeys) == len(e.StorageKeys)
+        && (forall j int :: 0 <= j && j < len(e.StorageKeys) ==> t.StorageKeys[j] == hash_hex(e.StorageKeys[j]))
+func NewAccessList
+    ensures nil_in: ethAccessList == nil ==> len(result) == 0
+    ensures mirrors: ethAccessList != nil ==> len(result) == len(*ethAccessList)
+            && (forall k int :: 0 <= k && k < len(*ethAccessList) ==> TupleMirrors(result[k], (*ethAccessList)[k]))
+    loop 1 invariant idx: 0 <= #i && #i <= len(*ethAccessList) && len(al) == #i && ethAccessList != nil
+    loop 1 invariant done: forall k int :: 0 <= k && k < #i ==> TupleMirrors(al[k], (*ethAccessList)[k])
+    loop 2 invariant idx: 0 <= #i && #i <= len(tuple.StorageKeys) && len(storageKeys) == len(tuple.StorageKeys)
+    loop 2 invariant keys: forall j int :: 0 <= j && j < #i ==> storageKeys[j] == hash_hex(tuple.StorageKeys[j])
+
+// the go-ethereum tuple e is the parsed form of the stored tuple t
+specfunc TupleParsed(e github.com/ethereum/go-ethereum/core/types.AccessTuple, t github.com/haqq-network/haqq/x/evm/types.AccessTuple) bool =
+        e.Address == hex_addr(t.Address) && len(e.StorageKeys) == len(t.StorageKeys)
+        && (forall j int :: 0 <= j && j < len(t.StorageKeys) ==> e.StorageKeys[j] == hex_hash(t.StorageKeys[j]))
+func (AccessList).ToEthAccessList
+    ensures parsed: result != nil && fresh(result) && len(*result) == len(al)
+            && (forall k int :: 0 <= k && k < len(al) ==> TupleParsed((*result)[k], al[k]))
+    loop 1 invariant idx: 0 <= #i && #i <= len(al) && len(ethAccessList) == #i
+    loop 1 invariant done: forall k int :: 0 <= k && k < #i ==> TupleParsed(ethAccessList[k], al[k])
+    loop 2 invariant idx: 0 <= #i && #i <= len(tuple.StorageKeys) && len(storageKeys) == len(tuple.StorageKeys)
+    loop 2 invariant keys: forall j int :: 0 <= j && j < #i ==> storageKeys[j] == hex_hash(tuple.StorageKeys[j])
+@*/
